@@ -3,6 +3,7 @@ CONSTANTS
   MaxTicks = 1000000
   ROSChoices = {TRUE, FALSE}
   RefOutcomes = {"nil", "err"}
+  CloseLate = FALSE
   AllowTBD = FALSE
-INVARIANTS OneRefreshPerTick CtxFromConstructor ErrorsHandledOnce ScheduleConsulted NoRefreshAfterShutdown ShutdownResult
+INVARIANTS OneRefreshPerTick CtxFromConstructor ErrorsHandledOnce ScheduleConsulted NoRefreshAfterShutdown DoneClosedFirst WindowNeverTicks ShutdownResult
 CHECK_DEADLOCK FALSE
